@@ -25,6 +25,7 @@ import (
 	"net/http/httputil"
 	"net/url"
 	"sync"
+	"syscall"
 	"time"
 
 	"github.com/prometheus/client_golang/prometheus"
@@ -415,24 +416,40 @@ type Client struct {
 
 func (c *Client) Close() { c.Conn.Close() }
 
+// Reset closes the TCP connection with RST (no TIME_WAIT: the source port is free again at once)
+func (c *Client) Reset() {
+	if c.Raw != nil {
+		if tc, ok := c.Raw.Conn.(*net.TCPConn); ok {
+			tc.SetLinger(0)
+		}
+	}
+	c.Conn.Close()
+}
+
 type DialOpts struct {
-	HoldAt   int
-	HoldCh   chan struct{}
-	Held     chan struct{}
-	LocalIP  string
-	TailCCS  int
-	Fragment int
-	Segment  int
-	Gap      time.Duration
-	ALPN     []string
-	SNI      string
-	Timeout  time.Duration
+	HoldAt    int
+	HoldCh    chan struct{}
+	Held      chan struct{}
+	LocalIP   string
+	LocalPort int // with LocalIP: the client's source port (a later connection may come from the very address an earlier one used)
+	TailCCS   int
+	Fragment  int
+	Segment   int
+	Gap       time.Duration
+	ALPN      []string
+	SNI       string
+	Timeout   time.Duration
 }
 
 func dialRaw(addr string, o DialOpts) (*RecConn, error) {
 	d := net.Dialer{Timeout: 5 * time.Second}
 	if o.LocalIP != "" { // another loopback source address: the proxy's peer is not always 127.0.0.1
-		d.LocalAddr = &net.TCPAddr{IP: net.ParseIP(o.LocalIP)}
+		d.LocalAddr = &net.TCPAddr{IP: net.ParseIP(o.LocalIP), Port: o.LocalPort}
+		if o.LocalPort != 0 {
+			d.Control = func(network, address string, c syscall.RawConn) error {
+				return c.Control(func(fd uintptr) { syscall.SetsockoptInt(int(fd), syscall.SOL_SOCKET, syscall.SO_REUSEADDR, 1) })
+			}
+		}
 	}
 	c, err := d.Dial("tcp", addr)
 	if err != nil {
